@@ -11,6 +11,19 @@ fn apply_exp10(base: BigInt, exponent: i32) -> Ratio<BigInt> {
 }
 
 fn parse_decimal_exactly(s: &str) -> Option<Ratio<BigInt>> {
+    // the sign applies to the whole mantissa, not just to the digits before the point
+    let (negative, s) = match s.strip_prefix('-') {
+        Some(rest) => (true, rest),
+        None => (false, s.strip_prefix('+').unwrap_or(s)),
+    };
+    if s.starts_with(['-', '+']) {
+        return None;
+    }
+    let magnitude = parse_unsigned_decimal_exactly(s)?;
+    Some(if negative { -magnitude } else { magnitude })
+}
+
+fn parse_unsigned_decimal_exactly(s: &str) -> Option<Ratio<BigInt>> {
     // scientific notation
     let (base_str, exponent) = if let Some(e_pos) = s.find(['e', 'E']) {
         let base_part = &s[..e_pos];
